@@ -57,6 +57,14 @@ def denote {K} [Add K] [Sub K] [Mul K] [Zero K] (cj : K → K) : Term K → List
   | .scale c t, x => smul c (denote cj t x)
   | .conj, x => x.map cj
 
+/-- A polarised field (2 components for a Jones-vector field, 4 for a Jones-matrix field) is stored
+component after component; elements without polarisation optics act on each component as on a
+scalar field: `denoteBlocks cj t n r x` applies `t` to each of the `r` consecutive chunks of length
+`n` of `x`. -/
+def denoteBlocks {K} [Add K] [Sub K] [Mul K] [Zero K] (cj : K → K) (t : Term K) (n : Nat) : Nat → List K → List K
+  | 0, _ => []
+  | r + 1, x => denote cj t (x.take n) ++ denoteBlocks cj t n r (x.drop n)
+
 /-- Change of scalars, entry by entry (used to transport a run of the driver, which computes with
 `CDy`, to `ℂ`: `Lemmas/OpIR.lean: denote_map`). -/
 def Term.map {K L : Type} (f : K → L) : Term K → Term L
